@@ -5,6 +5,33 @@ V = os.path.dirname(os.path.dirname(os.path.abspath(__file__)))
 
 # id -> (category, technique, text, note, design_ref)
 CHECKS = {
+ "C03": ("exploration", "runtime monitor: trace oracle over (item, offset) sequences of the real iterator checked against the input bytes with an independent reference decoder",
+         "For valid, truncated, mutated, adversarial, random and mid-document inputs under random configurations and short-read sources, every Ok item before the first error is checked against the bytes at its reported offset: id, documented value decoding, tiling of successive elements, End/Full offsets (implied ancestors at 0), with buffered parses aligned against an unbuffered parse of the same bytes.",
+         "a 0x00 byte where an id should start is a don't-care (reported as raw id 0 when unknown ids are tolerated); items after the first error are not judged", "DESIGN.md §5 C03"),
+ "C06": ("exploration", "runtime monitor: independent replay checker (own stack, reference path matcher, extents from reference header decode) over the Ok items of strict parses",
+         "Strict parses of valid/mutated/misplaced-insert/truncated/adversarial/mid-document inputs are replayed against an independent nesting + path + extent checker: End matches innermost open master, no raw tags, declared path matches the chain once the position is fixed, containment in known-size ancestors, End timing of known-size masters, justification of every unknown-size closing, empty stack on a clean end.",
+         "closings of unknown-size global masters (may contain themselves) are a don't-care; unbuffered parses only", "DESIGN.md §5 C06"),
+ "C07": ("exploration", "runtime monitor: differential reading of every unknown-size subset encoding of the same tree (real writer and reference encoder) against the tree",
+         "For random trees (incl. chains of 3-7 nested masters) every subset of eligible masters (all 2^m for m <= 5/8) is encoded with unknown size by the real writer and by the reference encoder (all-ones widths 1-8) and read by the real strict iterator; the item sequence must equal the flattened tree, i.e. the all-known-size reading.",
+         "global masters and masters directly followed by a global/raw element are not eligible (ambiguity excluded by the statement)", "DESIGN.md §5 C07"),
+ "C08": ("exploration", "runtime monitor: differential buffered vs unbuffered parses of the same bytes for all/random buffered-id subsets",
+         "Each input is parsed without buffering and with every subset (<= 4/6 masters) or random subsets of the master ids that occur; flatten(buffered) must equal the unbuffered items when that parse is clean (and be clean too), be a prefix followed by an error when it is not; offsets of elements outside Full items must agree.",
+         "end-of-stream closing left enabled (with it disabled a still-open buffered master can never become a Full)", "DESIGN.md §5 C08"),
+ "C12": ("fault_enumeration", "runtime monitor: truncation at every byte of valid documents; expected items and EOF-error fields computed arithmetically from the reference layout",
+         "Every cut position 0..=len of each generated valid document (known/unknown/mixed sizes, 1-8 byte ids and sizes) is parsed strictly under random capacity/chunking/poison; items must be exactly the complete tags of the prefix and the end must be the open masters' Ends + None on a boundary, otherwise UnexpectedEOF with exact tag_start / tag_id / tag_size / partial_data, never a corruption error.",
+         "Ends of unknown-size masters that only the incomplete element would close are a don't-care", "DESIGN.md §5 C12"),
+ "C13": ("exploration", "runtime monitor: single-fault injection x all 8 tolerance subsets, default-limit probes, strict-vs-tolerant prefix differential",
+         "Single-fault documents (unknown id / misplaced element / oversized child / size above limit) are parsed under all 8 tolerance subsets: the non-tolerated fault must be reported with its own error kind at the element (offset, id, size) after exactly the valid prefix, a tolerated kind must never occur; 4*10^9+1 byte declarations are rejected under the untouched default limit in all settings; on arbitrary inputs from a root element the strict Ok items (with offsets) are a prefix of every more tolerant parse.",
+         "hierarchy faults are injected into all-known-size documents", "DESIGN.md §5 C13"),
+ "C14": ("fault_enumeration", "runtime monitor: junk insertion at every tag boundary, next()/try_recover()/next() driven on the real iterator, differential against the undamaged parse",
+         "At every tag boundary of valid known-size documents a junk run (1-40 bytes that cannot start any id of the specification) is inserted; when the following tag still fits its known-size ancestors the items before are unchanged, exactly one error is reported, try_recover() succeeds and the remaining items equal the undamaged parse shifted by the junk length; always: try_recover() never panics, never moves backwards and fails only with EOF/ReadError.",
+         "layout from the reference decoder decides the precondition", "DESIGN.md §5 C14"),
+ "C17": ("exploration", "runtime monitor: counting global allocator measuring per-call heap growth and largest request; allocation ceiling turning runaway requests into reports",
+         "Hostile headers (declared sizes 0..2^56-2 in every width, all element types, root / known / unknown parents, payload absent or partial) are parsed under limits {0,5,4096,64K,1M,default}, capacities {16,4096,65536} and all tolerance subsets while the counting allocator measures every next()/try_recover(): growth and largest request stay within 16*max(B,capacity,64K)+1MiB, over-limit elements are rejected by a header check, no panic/overflow.",
+         "constant 16 deliberately loose; limit None not exercised; default-limit acceptance only up to 64 MiB", "DESIGN.md §5 C17"),
+ "C20": ("exploration", "runtime monitor: TagIteratorAsync driven by a scripted AsyncRead on a single-threaded executor, differential against the blocking iterator; starvation classified by replaying the schedule through a gated blocking source",
+         "For each input and buffered set the async iterator (next() loop and Stream adapter) is driven with many delivery schedules (all partitions of inputs <= 8/10 bytes, k-byte, 1-byte, random, Pending every k-th poll, inputs across the 64 KiB transfer buffer) and compared item by item and offset by offset with the blocking iterator; schedules where the inner iterator would see EOF before the producer is done are the open known finding C20/starved-read, all others must agree.",
+         "inputs with declarations above 16 MiB are skipped (the adapter cannot change the 4 GB default limit)", "DESIGN.md §5 C20"),
  "C04": ("exploration", "runtime monitor: differential executions of the real iterator over scripted Read sources (short-read schedules, capacities, poisoned buffer tails, temporary EOFs) against the whole-slice parse",
          "The same bytes and configuration are parsed from a slice (baseline) and through scripted sources that vary the initial capacity (0..>len), the partition of the input into read() results (all 2^(n-1) partitions for inputs <= 9/12 bytes, random beyond), the garbage written behind delivered bytes, and — with EOF closing disabled — temporary Ok(0) reads at subsets of tag boundaries; (item, offset) sequences and the first error with all fields must be identical.",
          "one open known finding: a pause while a buffered (Full) master is being collected (known_findings.json C04/pause/inside-buffered-master); inputs <= ~6 KB for the variant matrix", "DESIGN.md §5 C04"),
